@@ -253,8 +253,9 @@ theorem chainBetween_eq {cfg : Cfg H} {s : Store H} (hw : WF cfg s) {r a : Row H
     (hc : connected r) (ha : a ∈ chainTo s r) (hne : a ≠ r) :
     chainBetween s a.hash r.hash = segment s r a := by
   unfold chainBetween segment
-  rw [byHash_mem hw.nodup hr, byHash_mem hw.nodup (chainTo_mem ha),
-    walkUntil_eq hw a r hr hc s.length (Nat.le_of_lt (ids_lt hw.ids hr)) ha hne]
+  rw [byHash_mem hw.nodup hr, byHash_mem hw.nodup (chainTo_mem ha)]
+  simp only
+  rw [walkUntil_eq hw a r hr hc s.length (Nat.le_of_lt (ids_lt hw.ids hr)) ha hne]
 
 /-! ### `ancestors` -/
 
@@ -296,8 +297,8 @@ theorem ancestors_error {cfg : Cfg H} {s : Store H} (hw : WF cfg s) {r a : Row H
   rw [byHash_mem hw.nodup hr, byHash_mem hw.nodup has]
   simp only
   by_cases h1 : r.height < a.height
-  · rw [if_pos h1, if_pos (by omega)]
-  · rw [if_neg h1, if_neg (by omega)]
+  · rw [if_pos h1, if_pos h1]
+  · rw [if_neg h1, if_neg h1]
     by_cases h2 : a.height = r.height
     · rw [if_pos h2, if_pos hne]
     · rw [if_neg h2]
